@@ -487,3 +487,75 @@ func VerifC04KeyedSpellings() {
 		}
 	}
 }
+
+// VerifC04Unicity: a keyed list of up to five entries over three keys, in every arrangement (duplicates of an
+// earlier entry before, between and after new keys), split at every point between a base and an override file:
+// one entry per key, the last value of each key, nothing else lost.
+func VerifC04Unicity() {
+	which := vrtChoice("attr", 3)
+	attr := []string{"environment", "labels", "ports"}[which]
+	n := 2 + vrtChoice("entries", vrtParam("N", 4))
+	keys := []string{"A", "B", "C"}
+	ports := []string{"8080", "9000", "9001"}
+	var entries []any
+	last := map[string]string{}
+	for k := 0; k < n; k++ {
+		ki := vrtChoice("key", 3)
+		val := string(rune('1' + k))
+		if which == 2 {
+			// the same published:target pair is the same port; the payload that tells entries apart is the mode
+			mode := []string{"ingress", "host"}[k%2]
+			entries = append(entries, map[string]any{"target": 80, "published": ports[ki], "mode": mode})
+			last[ports[ki]] = mode
+		} else {
+			entries = append(entries, keys[ki]+"="+val)
+			last[keys[ki]] = val
+		}
+	}
+	split := vrtChoice("splitAt", n+1)
+	base := c04Doc(attr, entries[:split])
+	over := c04Over(attr, entries[split:])
+	docs := []map[string]any{base, over}
+	if split == n {
+		docs = docs[:1]
+	}
+	if split == 0 {
+		base = c04Doc(attr, entries)
+		docs = []map[string]any{base}
+	}
+	m, err := tcLoad(nil, nil, docs...)
+	vrtObserve("err", err != nil)
+	vrtAssert("loads#"+attr, err == nil)
+	if err != nil {
+		vrtObserve("msg", err.Error())
+		return
+	}
+	got := map[string]string{}
+	count := 0
+	switch l := tcSvc(m, "s")[attr].(type) {
+	case []any:
+		for _, e := range l {
+			count++
+			switch x := e.(type) {
+			case string:
+				kv, _ := c04KV([]any{x})
+				for k, v := range kv {
+					got[k] = v
+				}
+			case map[string]any:
+				p, _ := x["published"].(string)
+				mo, _ := x["mode"].(string)
+				got[p] = mo
+			}
+		}
+	case map[string]any:
+		for k, v := range l {
+			count++
+			s, _ := v.(string)
+			got[k] = s
+		}
+	}
+	vrtObserve("got", got)
+	vrtAssert("one-entry-per-key#"+attr, count == len(last))
+	vrtAssert("last-value-of-every-key#"+attr, vrtDeepEqual(got, last))
+}
